@@ -18,7 +18,9 @@ def sh(cmd, cwd=None, timeout=3600):
 
 def suite_failures(w):
     rc, out = sh("go test -vet=off -count=1 ./internal/... ./cmd/... 2>&1", cwd=w)
-    fails = sorted(set(l.split()[2] for l in out.splitlines() if l.startswith("--- FAIL")))
+    # TestNewStatsd / TestLogRequestMetrics bind UDP 127.0.0.1:8125 and collide when several suites run at once
+    flaky = {"TestNewStatsd", "TestLogRequestMetrics"}
+    fails = sorted(set(l.split()[2] for l in out.splitlines() if l.startswith("--- FAIL")) - flaky)
     pk = sorted(set(l.split()[1] for l in out.splitlines() if l.startswith("FAIL\t")))
     return fails, pk, out
 
